@@ -125,6 +125,21 @@ def family():
     add("conj(v0)*f", P(Conj(v), f), (v,))
     add("conj(conj(v0))*f", P(Conj(Conj(v)), f), (v,))
     add("real(v0)*f", P(cm["Real"](v), f), (v,))
+    # generated: every two-branch combinator over every pair of branch kinds (consistent and inconsistent
+    # conjugation, linear and affine, zero) - the combinators merge the arities of their branches
+    branches = [("v0", v), ("conj(v0)", Conj(v)), ("f*v0", P(f, v)), ("conj(v0)*f", P(Conj(v), f)), ("0", zero), ("1.0", one)]
+    for (d1, b1), (d2, b2) in itertools.product(branches, repeat=2):
+        if b1 is b2 and b1 in (zero, one):
+            continue
+        add(f"({d1}) + ({d2})", S(b1, b2), (v,))
+        add(f"as_vector([{d1}, {d2}])[i]*F[i]", mult(idx(uflmodel.m_list_tensor(b1, b2), i), idx(fv, i)), (v,))
+        add(f"conditional(f<g, {d1}, {d2})", uflmodel.m_conditional(c, b1, b2), (v,))
+    branches2 = [("conj(v0)*v1", P(Conj(v), u)), ("v0*v1", P(v, u)), ("conj(v0)*conj(v1)", P(Conj(v), Conj(u))), ("0", zero)]
+    for (d1, b1), (d2, b2) in itertools.product(branches2, repeat=2):
+        if b1 is b2 and b1 is zero:
+            continue
+        add(f"as_vector([{d1}, {d2}])[i]*F[i]", mult(idx(uflmodel.m_list_tensor(b1, b2), i), idx(fv, i)), (v, u))
+        add(f"as_vector([[{d1}, 0], [0, {d2}]])[i,j]*F[i]*F[j]   (nested list)", mult(mult(idx(uflmodel.m_list_tensor(uflmodel.m_list_tensor(b1, zero), uflmodel.m_list_tensor(zero, b2)), i, j), idx(fv, i)), idx(fv, j)), (v, u))
     # rank 2
     add("v0*v1", P(v, u), (v, u))
     add("conj(v0)*v1", P(Conj(v), u), (v, u))
